@@ -273,9 +273,22 @@ impl Report
 	pub fn oracle_fail(&mut self, input: impl Into<String>, what: impl Into<String>)
 	{
 		self.oracle_failures_total += 1;
-		if self.oracle_failures.len() < MAX_KEPT
+		// keep the first MAX_KEPT failures PER INPUT CLASS (the leading word of the input, e.g. `alias`, `getgap`, `proj`):
+		// the failures of a known finding, which can be many, must never crowd out a failure of another class — `./check`
+		// decides known / unknown per kept failure
+		let input: String = input.into();
+		// class = leading word, plus the trailing word when it is a tag such as `panic` / `panic-inside`
+		fn class_of(input: &str) -> String
 		{
-			self.oracle_failures.push(OracleFailure{input: input.into(), what: what.into()});
+			let head: String = input.chars().take_while(|c| c.is_ascii_alphanumeric() || *c == '_' || *c == '-').collect();
+			let tail = input.rsplit(' ').next().unwrap_or("");
+			if tail.len() < 24 && !tail.is_empty() && tail != head && tail.chars().all(|c| c.is_ascii_alphabetic() || c == '-') {format!("{head}|{tail}")} else {head}
+		}
+		let class = class_of(&input);
+		let kept_in_class = self.oracle_failures.iter().filter(|f| class_of(&f.input) == class).count();
+		if kept_in_class < MAX_KEPT && self.oracle_failures.len() < 16 * MAX_KEPT
+		{
+			self.oracle_failures.push(OracleFailure{input, what: what.into()});
 		}
 	}
 
